@@ -268,6 +268,9 @@ class Zygote:
         self.late = None  # key -> module object
         self.gen_docs = None
         self.prep_modules = None
+        self.cov = {}
+        self.cov_first = {}
+        self.cov_lazy = {}
 
 
 Z = Zygote()
@@ -358,34 +361,63 @@ def child_init():
 
 # ---------------------------------------------------------------- reference table R
 def _ref_task(item):
-    opname, mods = item
+    opname, mods, want_cov = item
     from sim import ops as O
 
     child_init()
     for k in mods:
         register_late(k)
     env = O.Env()
-    return O.execute(Z.op_by_name[opname], env)
+    if not want_cov:
+        return O.execute(Z.op_by_name[opname], env)
+    from sim import sched as S
+
+    codes = S.xsdata_code_objects()
+    cov = S.CoverageCollector(codes)
+    cov.install()
+    rec = O.execute(Z.op_by_name[opname], env)
+    cov.uninstall()
+    # the same call again on the now warm instances: what it no longer executes is lazy initialisation
+    warm = S.CoverageCollector(codes)
+    warm.install()
+    O.execute(Z.op_by_name[opname], env)
+    warm.uninstall()
+    rec["cov"] = sorted(cov.locs)
+    rec["cov_first"] = sorted(cov.locs - warm.locs)
+    # lazy initialisation inside functions that also run on warm instances (check-then-build, memo fill)
+    lazy = set()
+    for code, locs in cov.by_code.items():
+        if code in warm.by_code and code.co_name not in ("__init__", "__post_init__"):
+            lazy |= locs - warm.by_code[code]
+    rec["cov_lazy"] = sorted(lazy)
+    return rec
 
 
 MSETS = [(), ("L1",), ("L2",), ("L1", "L2")]
 
 
-def compute_reference(opnames=None, timeout=60.0):
-    """R[(op, M)] = record of op executed alone, first, in a pristine child with late set M."""
+def compute_reference(opnames=None, timeout=60.0, coverage=False):
+    """R[(op, M)] = record of op executed alone, first, in a pristine child with late set M.
+    With coverage=True the smallest admissible M also records which runtime lines the call executes (Z.cov)."""
     items = []
     for op in Z.ops:
         if opnames is not None and op.name not in opnames:
             continue
+        first = True
         for m in MSETS:
             if op.needs and op.needs not in m:
                 continue
-            items.append((op.name, m))
+            items.append((op.name, m, coverage and first))
+            first = False
     res = run_batch(_ref_task, items, timeout=timeout)
     R = {}
     for idx, status, value in res:
         if status != "ok":
             raise HarnessError(f"reference run failed for {items[idx]}: {status}: {str(value)[-2000:]}")
+        if "cov" in value:
+            Z.cov[items[idx][0]] = frozenset(value.pop("cov"))
+            Z.cov_first[items[idx][0]] = frozenset(value.pop("cov_first"))
+            Z.cov_lazy[items[idx][0]] = frozenset(value.pop("cov_lazy"))
         R[(items[idx][0], frozenset(items[idx][1]))] = value
     if len(R) != len(items):
         raise HarnessError("reference table incomplete")
